@@ -2,6 +2,7 @@
 # run every check of a tier in sequence; prints one summary line per check
 tier="${1:-quick}"
 cd "$(dirname "$0")"
+mkdir -p .work evidence replays
 rc=0
 for i in 01 02 03 04 05 06 07 08 09 10 11 12 13 14 15 16 17 18 19 20; do
   ./check C$i --tier "$tier" > .work/run_C$i.log 2>&1; r=$?
